@@ -75,6 +75,24 @@ theorem C24_include_origin_valid (input : List UInt8) (ctx : Ctx) (h : CtxWF ctx
     validateUncompressed o.toArray true = .ok o.length :=
   validate_all ((collect_run _ h).items_ok _ hy o rfl)
 
+/-- the `RecordsOnly` iterator (`Parser::records_only`) has the same guarantees — no panic, no
+    divergence, error last, every record valid — and turns an `$INCLUDE` into an error instead
+    of yielding it -/
+theorem C24_records_only (input : List UInt8) (ctx : Ctx) (h : CtxWF ctx) :
+    let ys := collectRecordsOnly (Parser.withContext input ctx)
+    Yield.panic ∉ ys ∧ (∀ e, Yield.err e ∈ ys → e.kind ≠ .ModelStuck) ∧
+    (∀ pre e post, ys = pre ++ .err e :: post → post = []) ∧
+    (∀ l path o, Yield.item (.incl l path o) ∉ ys) ∧
+    (∀ line r, Yield.item (.record line r) ∈ ys →
+      validateUncompressed r.owner.toArray true = .ok r.owner.length ∧ r.ty ≠ 10 ∧ r.ty ≠ 41 ∧ r.ty ≠ 250 ∧
+      Rdata.validate r.cls r.ty r.rdata.toArray = .ok ()) := by
+  intro ys
+  obtain ⟨hr, hi⟩ := collectRecordsOnly_run (Parser.withContext input ctx) h
+  refine ⟨hr.no_panic, hr.no_stuck, hr.err_last, hi, ?_⟩
+  intro line r hy
+  have g := hr.items_ok _ hy
+  exact ⟨validate_all g.1, g.2.1, g.2.2.1, g.2.2.2.1, g.2.2.2.2⟩
+
 /-- the three excluded types are the ones named NULL, OPT, TSIG in src/rr/rr_type.rs, and they are
     exactly the types `parse_type` refuses (generated tables) -/
 theorem C24_rejected_types :
